@@ -362,10 +362,13 @@ __CPROVER_ensures(gh_sg_released == ((gh_sg_disposed == 1 && gh_sg_shared == 0 &
  * first co_await: creates a private signal, subscribes the coroutine FIRST and only then hands the collector to the user's registration
  * function (so the very first emission cannot be missed); if the registration function does not keep the collector, the state dies at
  * the end of the call and the coroutine is released with no value instead of waiting forever.  Later co_awaits: plain emitter. */
-int gh_reg_calls, gh_reg_npush_at_call; void *gh_reg_state, *gh_reg_pi; cv_i1 gh_reg_keep;
+int gh_reg_calls, gh_reg_npush_at_call; void *gh_reg_state, *gh_reg_pi; cv_i1 gh_reg_keep; cv_i8 gh_reg_hooked_at_call;
 #ifdef CV_HAS_user_reg
 void user_reg(REGT *this_, COLL *c) {
   gh_reg_calls++; gh_reg_npush_at_call = gh_n_push; gh_reg_state = (void *)SP_PTR(&c->_state); gh_reg_pi = (void *)SP_PI(&c->_state);
+#ifdef CV_HAS_hue_suspend
+  gh_reg_hooked_at_call = ((HUE *)gh_emit_obj)->_hooked;
+#endif
   if (gh_reg_keep) {          /* the signal generator moves the collector away: from now on other threads emit / may drop it at any time */
     SP_PI(&c->_state) = 0; SP_PTR(&c->_state) = 0; gh_sg_mine_s--; gh_sg_shared = 1; gh_S_excl = 0; gh_S_role = S_ROLE_LISTEN; } }
 #endif
@@ -377,11 +380,16 @@ cv_i1 hue_suspend(HUE *this_, cv_i8 *h)
 __CPROVER_requires(cv_exc_pending == 0 && S_FRESH && RC_PRE && h != 0 && gh_emit_obj == (void *)this_ && gh_my_node == (void *)EM_NODE(&this_->base_emitter) && gh_node_own == OWN_ME)
 __CPROVER_requires(gh_reg_calls == 0 && gh_reg_keep <= 1 && this_->_hooked == 0 && !EM_CONNECTED(&this_->base_emitter) && WP_PTR(&this_->base_emitter._wk_state) == 0)
 __CPROVER_requires(gh_sg_blk == 0 && gh_S_slot == 0 && cv_sg_depth == 0 && gh_sg_mine_s == 0 && gh_sg_mine_w == 0 && gh_sg_made == 0 && gh_sg_locks == 0 && gh_sg_disposed == 0 && gh_sg_released == 0 && gh_sg_env_disposed == 0 && gh_sg_shared == 0)
-__CPROVER_assigns(__CPROVER_object_whole(this_), PROTS_GHOSTS, RC_GHOSTS, SG_GHOSTS, gh_sg_blk, gh_S_slot, gh_sg_shared, gh_reg_calls, gh_reg_npush_at_call, gh_reg_state, gh_reg_pi)
+__CPROVER_assigns(__CPROVER_object_whole(this_), PROTS_GHOSTS, RC_GHOSTS, SG_GHOSTS, gh_sg_blk, gh_S_slot, gh_sg_shared, gh_reg_calls, gh_reg_npush_at_call, gh_reg_state, gh_reg_pi, gh_reg_hooked_at_call)
 __CPROVER_ensures(cv_exc_pending == 0 && __CPROVER_return_value == 1 && this_->_hooked == 1 && gh_sg_made == 1 && gh_allocs == __CPROVER_old(gh_allocs) + 1)
 __CPROVER_ensures(gh_sg_blk != 0 && (void *)WP_PI(&this_->base_emitter._wk_state) == (void *)gh_sg_blk && WP_PTR(&this_->base_emitter._wk_state) == STATE0)
 __CPROVER_ensures(gh_n_push == 1 && gh_push_handle == (void *)h && gh_push_fn == 0 && gh_push_next == 0 && gh_push_seen == 0)        /* first listener of a brand-new state */
 __CPROVER_ensures(gh_reg_calls == 1 && gh_reg_npush_at_call == 1 && gh_reg_state == (void *)STATE0 && gh_reg_pi == (void *)gh_sg_blk)     /* subscribed BEFORE the collector is handed out */
+/* from the instant the collector is handed out the generator may emit (synchronously inside the registration function, or from its own thread): the released
+ * listener re-awaits THIS emitter object at once - "a listener that does nothing between signals except re-await the emitter misses none" - and that re-await
+ * must already take the plain-emitter route: the emitter is marked hooked BEFORE the registration function runs (otherwise the re-await builds a second private
+ * signal, registers again and the rest of the first signal's values are lost; seeded change C15-5) */
+__CPROVER_ensures(gh_reg_hooked_at_call == 1)
 __CPROVER_ensures(gh_sg_mine_s == 0 && gh_sg_mine_w == 1 && gh_sg_released == 0)
 /* collector kept by the generator: the coroutine stays subscribed - unless the generator (another thread) has dropped the collector again before this call
  * returns, in which case the private signal object destroyed at the end of the call was the last handle and ~state ran here */
